@@ -2,10 +2,9 @@
 from __future__ import annotations
 
 import ast
-import copy
-from typing import Callable, Dict, Iterable, List, Optional, Sequence, Set, Tuple
+from typing import Callable, Dict, Iterable, List, Optional, Set, Tuple
 
-from sa.astx import FUNC_TYPES, SCOPE_TYPES, body_walk, call_attr, call_name, dotted, src, walk_local
+from sa.astx import body_walk, dotted, src, walk_local
 from sa.source import AnalysisError
 
 
